@@ -3,6 +3,7 @@
   The formulas proved about are the kernels *translated from the C source* (Nice.Gen).
 -/
 import Nice.Model.Prio
+import Nice.Props.C15TypePref
 namespace Nice.Props.C15
 open Nice.Gen Nice.Prio
 
